@@ -1,4 +1,5 @@
 import IcyVerif.Lemmas.TermWrap
+import IcyVerif.Lemmas.TermOther
 /-! # C01 — no byte stream can crash a terminal emulation
 Theorems for the ANSI emulation (CSI/ESC tables, DCS incl. macro definition/invocation and hex macros, OSC/APS
 framing, ANSI music framing) on a terminal buffer with scrollback, after the repairs recorded in
@@ -6,8 +7,8 @@ framing, ANSI music framing) on a terminal buffer with scrollback, after the rep
 `clampMinMax` (`clamp` with min > max), `negIndex` (negative index cast to `usize`), and `overflow`, which the
 model raises *conservatively* whenever a plain `+`/`-` on the cursor or the buffer height could leave `i32`.
 
-Full statement (every emulation, every sub-language): the theorems cover ANSI, Avatar, PCBoard, Ctrl-A, Renegade;
-PETSCII, ATASCII, Viewdata, Mode 7, ASCII, and what the external actions do (palette, fonts, hyperlinks, sixel decode, music
+Full statement (every emulation, every sub-language): the theorems cover all ten text-mode emulations' control
+flow and geometry; and what the external actions do (palette, fonts, hyperlinks, sixel decode, music
 list) are covered by the oracle run of `harness/src/c01.rs` only. -/
 namespace IcyVerif.C01
 open IcyVerif.Term
@@ -27,6 +28,17 @@ theorem no_panic_wrapped_partial (em : Emu) (w h : Int) (hw1 : 1 ≤ w) (hw2 : w
   have hg := wrun_good em o bytes (initW w h) (initSt_good w h hw1 hw2 hh1 hh2)
   rw [hrun] at hg
   exact hg
+
+/-- the same for ASCII, ATASCII, PETSCII, Viewdata and Mode 7 -/
+theorem no_panic_bytes_partial (em : Emu2) (w h : Int) (hw1 : 1 ≤ w) (hw2 : w ≤ 132) (hh1 : 1 ≤ h) (hh2 : h ≤ 60)
+    (bytes : List Char) (e : Panic) (hrun : orun em (initO w h) bytes = .error e) : ∃ site, e = Panic.overflow site := by
+  have hi := initO_good w h hw1 hw2 hh1 hh2
+  have hg := orun_good em bytes (initO w h) hi.1 (fun _ => hi.2)
+  rw [hrun] at hg
+  exact hg
+
+/-- PETSCII: `handle_reverse_mode` adds 0x80 to a `u8`; the stored byte is at most 0x7F, so it cannot overflow -/
+theorem petscii_reverse_no_overflow : ∀ b, b < 256 → ∀ t, petsciiTch b = some t → t + 128 ≤ 255 := by decide +kernel
 
 /-- …and that guard only fires once the scrollback has grown beyond 2^30 rows (tens of gigabytes of cells) -/
 theorem overflow_guard_needs_2_30_rows (st : St) (hg : GoodSt st) (hb : st.s.bh ≤ 1073741000) :
